@@ -163,14 +163,16 @@ def sampler_case(skind, name, mk, info, n, k, filt):
 def cases(tier):
     cs = []
     cat = SH.catalog(tier)
-    ns_rand = (1, 2) if tier == "quick" else (1, 2, 3)
-    ns_grid = (2, 3) if tier == "quick" else (1, 2, 4, 5)
+    quick = tier == "quick"
+    ns_rand = (1, 2) if quick else (1, 2, 3)
     for name, mk, info in cat:
         dep = c05_dep(info, name)
-        ks = (2,) if dep else ((0, 2) if tier == "thorough" else (0,))
-        if dep and tier == "thorough":
+        ks = (2,) if dep else ((0, 2) if not quick else (0,))
+        if dep and not quick:
             ks = (1, 2)
         prod = info.get("fam") == "product"
+        poly = any(p in name for p in ("Parallelogram", "Triangle"))
+        ns_grid = ((2,) if poly else (2, 3)) if quick else (1, 2, 4, 5)
         for k in ks:
             for n in ns_rand:
                 cs.append(domain_case(name, mk, info, "random", n, k, False))
@@ -188,17 +190,25 @@ def cases(tier):
     for name, mk, info in reps:
         dep = c05_dep(info, name)
         k = 2 if dep else 0
+        simple = name in ("Interval", "Circle", "Parallelogram")
         for skind in ("random", "grid"):
             for filt in (False, True):
+                if quick and filt and name not in ("Interval", "Circle"):
+                    continue
                 cs.append(sampler_case(skind, name, mk, info, 2, k, filt))
-        if name in ("Interval", "Circle", "Parallelogram"):
+        if simple:
             cs.append(sampler_case("gauss", name, mk, info, 2, 0, False))
             cs.append(sampler_case("lhs", name, mk, info, 2, 0, False))
             cs.append(sampler_case("adaptive_threshold", name, mk, info, 2, 0, False))
             cs.append(sampler_case("adaptive_random", name, mk, info, 2, 0, False))
-        if tier == "thorough":
+        if not quick:
             cs.append(sampler_case("random", name, mk, info, 3, 2, True))
             cs.append(sampler_case("lhs", name, mk, info, 3, k, False))
+    if quick:
+        for c in cs:
+            c.max_forks_per_site = min(c.max_forks_per_site, 3)
+            c.max_paths = min(c.max_paths, 40)
+            c.budget_s = 75
     return cs
 
 
